@@ -13,6 +13,7 @@ REPO = os.environ.get("VERIF_REPO", "/repo")
 COQ = os.path.join(VERIF, "coq")
 NCPU = os.cpu_count() or 4
 GUARD_TAG = "verif"
+MAX_REPORTED = 12            # VIOLATION lines / replay files per run; further ones are counted only
 
 GOENV = {
     "GOFLAGS": "-mod=mod", "GOPROXY": "off", "GOSUMDB": "off", "GOTOOLCHAIN": "local",
@@ -136,6 +137,10 @@ class Ctx:
             key = kf.get("id") or kf.get("what")
             if key not in [k.get("id") or k.get("what") for k in self.known]:
                 self.known.append(kf)
+            return None
+        if len(self.violations) >= MAX_REPORTED:
+            # enough concrete replays; the rest are only counted (evidence: violations_not_reported)
+            self.coverage["violations_not_reported"] = self.coverage.get("violations_not_reported", 0) + 1
             return None
         data = {"property": self.pid, "tier": self.tier, "seed": self.seed,
                 "what": what, "case": case, "failing_input_found": found_input}
